@@ -1833,7 +1833,10 @@ class Interp:
             return TOP()
         if name in ("print", "setattr"):
             if name == "setattr" and args and args[0].kind == "obj":
-                self.dom.on_attr_store(self, args[0], "<setattr>", args[-1], node)
+                # setattr(obj, "name", v) with the name known in this calling context is  obj.name = v
+                nm = args[1] if len(args) == 3 else None
+                attr = nm.data if nm is not None and nm.kind == "const" and isinstance(nm.data, str) and nm.data.isidentifier() else "<setattr>"
+                self.dom.on_attr_store(self, args[0], attr, args[-1], node)
             return NONE
         if name in ("str", "repr", "format"):
             return AV("str")
